@@ -1066,6 +1066,10 @@ impl<'a, S: Source + 'a> Constructed<'a, S> {
             let mut constructed = Constructed::new(
                 &mut source, self.state, self.mode
             );
+            // It reads the content of the same value: if the
+            // end-of-contents marker has been read already, its size stays
+            // known.
+            constructed.eoc_len = self.eoc_len;
             op(&mut constructed)?;
             self.state = constructed.state;
             self.eoc_len = constructed.eoc_len;
